@@ -28,6 +28,13 @@ def smallest_cases():
                     srcs = [{"leaf": dict(leaf, pos=[[i + 1, j, 0] for j in range(plen)])} for i in range(n_src)]
                     sens = [{"pos": [[0, 0, 1]], "ori": [octa.IDENT], "pixel": pix, "left": False}]
                     out.append({"sources": srcs, "sensors": sens, "agg": 0, "sumup": False})
+    # several groups interleaved so that the grouping permutation is not an involution
+    for pat in ([0, 1, 2, 0, 1, 2], [0, 1, 0, 2, 1, 0, 2], [2, 10, 1, 1, 10, 2, 10], [11, 0, 10, 11, 0, 10]):
+        srcs = [{"leaf": {"key": k, "tag": [i + 1, -i][:1 + i % 2] if k < 10 else None, "fresh": False,
+                          "pos": [[i, j, -i] for j in range(1 + i % 3)], "ori": [(5 * i + j) % 24 for j in range(1 + i % 3)]}}
+                for i, k in enumerate(pat)]
+        sens = [{"pos": [[0, 0, 1], [1, 0, 1]], "ori": [3, 7], "pixel": [[1, 0, 2], [0, -1, 1]], "left": False}]
+        out.append({"sources": srcs, "sensors": sens, "agg": 0, "sumup": False})
     return out
 
 
@@ -114,10 +121,57 @@ def exact_oracle(ctx, cases, limit):
 def real_sweep(ctx, n_cases, n_special):
     for i in range(n_cases):
         case = lr.g_case(ctx.rng, one_class=(i % 3 == 0), max_src=4 if i % 5 else 6)
+        if i % 4 == 3:       # the same kind of scene in mm, um and km
+            case = lr.scale_case(case, lr.LENGTH_SCALES[(i // 4) % 3])
+            ctx.bump("real:length-scale")
         check_real(ctx, case, "generic")
     for i in range(n_special):
         cls = lr.SPECIAL_CLASSES[i % len(lr.SPECIAL_CLASSES)]
-        check_real(ctx, lr.g_special_case(ctx.rng, cls, mixed=(i // len(lr.SPECIAL_CLASSES)) % 3 != 2), "special")
+        sc = lr.LENGTH_SCALES[(i // 7) % 3] if (i // 7) % 2 else 1.0
+        check_real(ctx, lr.g_special_case(ctx.rng, cls, mixed=(i // len(lr.SPECIAL_CLASSES)) % 3 != 2, scale=sc,
+                                          full=(i // len(lr.SPECIAL_CLASSES)) % 3 == 0), "special")
+    for _ in range(max(3, n_cases // 12)):
+        check_real(ctx, lr.g_interleaved_case(ctx.rng), "interleaved-3-classes")
+    # in_out modes of the bodies with an inside/outside decision
+    for i in range(max(4, n_cases // 9)):
+        cls = ("TriangularMesh", "Tetrahedron")[i % 2]
+        case = {"sources": [lr.g_leaf(ctx.rng, 2, cls) for _ in range(ctx.rng.randint(2, 3))]}
+        pts = [lr.inside_point(ctx.rng, s) for s in case["sources"]] + [lr.rvec(ctx.rng, -3, 3)]
+        case["sensors"] = [{"pos": [[0.0, 0.0, 0.0]], "rot": [[0.0, 0.0, 0.0]], "pixel": pts, "left": False}]
+        check_real(ctx, case, "in_out", kw={"in_out": ("inside", "outside")[(i // 2) % 2]})
+    # other public entry points / observer formats / output modes, and call -> mutation -> call histories
+    for i in range(max(10, n_cases // 3)):
+        case = lr.g_case(ctx.rng, max_src=3, max_sens=2, maxlen=3) if i % 2 else \
+            lr.g_hetero_case(ctx.rng, lr.HETERO_CLASSES[i % len(lr.HETERO_CLASSES)])
+        if i % 5 == 4:
+            case = lr.scale_case(case, lr.LENGTH_SCALES[i % 3])
+        field = lr.FIELDS[i % 4]
+        cache = {}
+        for kind in ("source-method", "dataframe", "squeeze", "positions", "observer-collection"):
+            try:
+                X = lr.entry_variants(case, field, kind)
+            except Exception as e:   # pylint: disable=broad-except
+                ctx.impl_fail(f"row-independent/entry:{kind}:raises", f"{kind} form of get{field} raised {type(e).__name__}: {e}",
+                              {"kind": "real", "field": field, "case": case})
+                continue
+            if X is None:
+                continue
+            ctx.bump("real:entry:" + kind)
+            mm = lr.element_mismatches(case, field, B=X, cache=cache)
+            if mm:
+                l, m, k, p, got, one = mm[0]
+                ctx.impl_fail(f"row-independent/entry:{kind}:{lr.cls_of(case['sources'][l])}:{field}",
+                              f"get{field} through `{kind}`: element (source {l}, path {m}, sensor {k}, pixel {p}) = {got}, "
+                              f"the same source / step / pixel alone = {one}",
+                              {"kind": "real-entry", "entry": kind, "field": field, "case": case})
+        try:
+            h = lr.history_mismatch(ctx.rng, case, field)
+        except Exception as e:   # pylint: disable=broad-except
+            h = f"raised {type(e).__name__}: {e}"
+        ctx.bump("real:history")
+        if h:
+            ctx.impl_fail(f"row-independent/history:{field}", "call -> public mutations -> call differs from the call on fresh "
+                          "twins of the mutated objects: " + h[:400], {"kind": "real-history", "field": field, "case": case})
     # groups of exactly one row at the end: two meshes / polylines with different counts, one observer each
     for cls in ("TriangularMesh", "Polyline", "Tetrahedron"):
         for _ in range(max(2, n_cases // 20)):
@@ -146,10 +200,10 @@ def real_sweep(ctx, n_cases, n_special):
             check_real(ctx, case, "equal-bodies-different-excitation")
 
 
-def check_real(ctx, case, kind):
+def check_real(ctx, case, kind, kw=None):
     for field in lr.FIELDS:
         try:
-            mm = lr.element_mismatches(case, field)
+            mm = lr.element_mismatches(case, field, kw=kw)
         except Exception as e:   # pylint: disable=broad-except
             ctx.impl_fail(f"row-independent/raises:{type(e).__name__}",
                           f"get{field} raised {type(e).__name__}: {e}", {"kind": "real", "field": field, "case": case})
@@ -160,7 +214,12 @@ def check_real(ctx, case, kind):
         ctx.bump(f"real:{kind}")
         for s in case["sources"]:
             ctx.bump("real-class:" + lr.cls_of(s).split("(")[0])
-        if mm:
+        if mm and kw:
+            l, m, k, p, got, one = mm[0]
+            ctx.impl_fail(f"row-independent/{lr.cls_of(case['sources'][l])}:{field}:{sorted(kw.items())}",
+                          f"get{field}({kw}) element (source {l}, path {m}, sensor {k}, pixel {p}) in the call = {got}, alone = {one}",
+                          {"kind": "real", "field": field, "case": case, "kw": kw})
+        elif mm:
             report_real(ctx, case, field, mm[0])
 
 
@@ -288,7 +347,7 @@ def run(ctx):
     run_guarded(ctx, lambda: nb.run(ctx, ctx.n(60, 1500) * (4 if ctx.broken else 1)), "C06 numeric batteries")
     big = bool(ctx.broken)
     run_guarded(ctx, lambda: exact_oracle(ctx, cases, ctx.n(40, 400) * (5 if big else 1)), "C06 exact oracle")
-    run_guarded(ctx, lambda: real_sweep(ctx, ctx.n(45, 600) * (4 if big else 1), ctx.n(42, 420) * (3 if big else 1)),
+    run_guarded(ctx, lambda: real_sweep(ctx, ctx.n(36, 600) * (4 if big else 1), ctx.n(42, 420) * (3 if big else 1)),
                 "C06 real-class sweep")
 
 
@@ -296,9 +355,16 @@ def replay(ctx, obj):
     rp = obj.get("replay", obj)
     if rp.get("kind") == "real":
         l, m, k, p = rp.get("element", [None] * 4)
-        mm = lr.element_mismatches(rp["case"], rp["field"], only=(l, m, k, p) if l is not None else None)
+        mm = lr.element_mismatches(rp["case"], rp["field"], only=(l, m, k, p) if l is not None else None, kw=rp.get("kw"))
         print("replay:", "property holds on this call" if not mm else
               f"FAILS: element {mm[0][:4]} in the call = {mm[0][4]}, alone = {mm[0][5]}")
+        if mm:
+            print("VIOLATION property=C06 replay=given")
+        return 1 if mm else 0
+    if rp.get("kind") == "real-entry":
+        X = lr.entry_variants(rp["case"], rp["field"], rp["entry"])
+        mm = lr.element_mismatches(rp["case"], rp["field"], B=X)
+        print("replay:", "property holds" if not mm else f"FAILS: element {mm[0][:4]} = {mm[0][4]}, alone = {mm[0][5]}")
         if mm:
             print("VIOLATION property=C06 replay=given")
         return 1 if mm else 0
